@@ -421,5 +421,5 @@ def run(repo='/repo', tier='quick'):
     res.assumptions += ['the statement is about well-formed exchanges: look-ahead sites whose two outcomes agree on well-formed input are tabled with their reason (AGREE) rather than alarmed',
                         'equality of the two parses as values is not decided; multipart / urlencoded carry state is covered by C14 / C15']
     from . import sentinel
-    sentinel.run(db, res, 'C03.g', lambda f: not f.loc.startswith('htp/htp_urlencoded.c') and not f.loc.startswith('htp/lzma'), 20)
+    sentinel.run(db, res, 'C03.g', lambda f: not f.loc.startswith('htp/htp_urlencoded.c') and not f.loc.startswith('htp/lzma'), 6)
     return res
